@@ -808,3 +808,36 @@ func init() {
 		New:    "\t\t\t\tif !hook.expires.IsZero() && !hook.channel {\n\t\t\t\t\tex := float64(time.Until(hook.expires))",
 		Expect: "R9.emit-covers-state", Key: "hook/ex", Why: "channels lose their expiration"})
 }
+
+func init() {
+	fPubsub := "internal/server/pubsub.go"
+	fSearch := "internal/server/search.go"
+	mutant(&Mutant{Name: "nextstep-skips-step-on-yield", Props: []string{"C11"}, File: fColl,
+		Old:    "\t\truntime.Gosched()\n\t\tdeadline.Check()\n\t}\n\tif cursor != nil {\n\t\tcursor.Step(1)\n\t}",
+		New:    "\t\truntime.Gosched()\n\t\tdeadline.Check()\n\t} else if cursor != nil {\n\t\tcursor.Step(1)\n\t}",
+		Expect: "R11.stepper-exactly-once", Key: "nextStep", Why: "second seeded change for C11: no step on yield boundaries"})
+	mutant(&Mutant{Name: "neutral-nextstep-step-first", Props: []string{"C11"}, File: fColl, Neutral: true,
+		Old:    "\tif step&(yieldStep-1) == (yieldStep - 1) {\n\t\truntime.Gosched()\n\t\tdeadline.Check()\n\t}\n\tif cursor != nil {\n\t\tcursor.Step(1)\n\t}",
+		New:    "\tif cursor != nil {\n\t\tcursor.Step(1)\n\t}\n\tif step&(yieldStep-1) == (yieldStep - 1) {\n\t\truntime.Gosched()\n\t\tdeadline.Check()\n\t}",
+		Why:    "step before the yield check"})
+	mutant(&Mutant{Name: "subscription-queue-reuses-array", Props: []string{"C10"}, File: fPubsub,
+		Old:    "\t\t\t\tmsgs := target.msgs\n\t\t\t\ttarget.msgs = nil\n",
+		New:    "\t\t\t\tmsgs := target.msgs\n\t\t\t\ttarget.msgs = target.msgs[:0]\n",
+		Expect: "R10.batch-not-aliased", Key: "liveSubscription→subtarget.msgs", Why: "second seeded change for C10: the queue keeps the backing array of the batch being delivered"})
+	mutant(&Mutant{Name: "pubqueue-reuses-array", Props: []string{"C10"}, File: "internal/server/pubqueue.go",
+		Old:    "\t\t\tentries := s.pubq.entries\n\t\t\ts.pubq.entries = nil\n",
+		New:    "\t\t\tentries := s.pubq.entries\n\t\t\ts.pubq.entries = entries[:0]\n",
+		Expect: "R10.batch-not-aliased", Key: "startPublishQueue→pubQueue.entries", Why: "the same slip through the local alias"})
+	mutant(&Mutant{Name: "multiglob-first-pattern-seeds-range", Props: []string{"C12"}, File: fSearch,
+		Old:    "\t\tg := glob.Parse(pattern, desc)\n\t\tif g.Limits[0] == \"\" && g.Limits[1] == \"\" {\n\t\t\tlimits[0], limits[1] = \"\", \"\"\n\t\t\tbreak\n\t\t}\n\t\tif i == 0 {\n\t\t\tlimits[0], limits[1] = g.Limits[0], g.Limits[1]\n\t\t} else if desc {",
+		New:    "\t\tg := glob.Parse(pattern, desc)\n\t\tif i == 0 {\n\t\t\tlimits[0], limits[1] = g.Limits[0], g.Limits[1]\n\t\t\tcontinue\n\t\t}\n\t\tif g.Limits[0] == \"\" && g.Limits[1] == \"\" {\n\t\t\tlimits[0], limits[1] = \"\", \"\"\n\t\t\tbreak\n\t\t}\n\t\tif desc {",
+		Expect: "R12.multi-glob-unbounded", Key: "merge1-after-unbounded-test", Why: "second seeded change for C12: an unbounded first pattern seeds the range"})
+	mutant(&Mutant{Name: "multiglob-unbounded-keeps-merging", Props: []string{"C12"}, File: fSearch,
+		Old:    "\t\tif g.Limits[0] == \"\" && g.Limits[1] == \"\" {\n\t\t\tlimits[0], limits[1] = \"\", \"\"\n\t\t\tbreak\n\t\t}\n\t\tif i == 0 {",
+		New:    "\t\tif g.Limits[0] == \"\" && g.Limits[1] == \"\" {\n\t\t\tlimits[0], limits[1] = \"\", \"\"\n\t\t\tcontinue\n\t\t}\n\t\tif i == 0 {",
+		Expect: "R12.multi-glob-unbounded", Key: "unbounded-pattern-unbounds-range", Why: "later patterns narrow the range again"})
+	mutant(&Mutant{Name: "neutral-multiglob-test-reordered", Props: []string{"C12"}, File: fSearch, Neutral: true,
+		Old:    "\t\tif g.Limits[0] == \"\" && g.Limits[1] == \"\" {\n\t\t\tlimits[0], limits[1] = \"\", \"\"\n\t\t\tbreak\n\t\t}\n\t\tif i == 0 {",
+		New:    "\t\tif g.Limits[1] == \"\" && g.Limits[0] == \"\" {\n\t\t\tlimits[1], limits[0] = \"\", \"\"\n\t\t\tbreak\n\t\t}\n\t\tif i == 0 {",
+		Why:    "the two halves of the test swapped"})
+}
